@@ -60,7 +60,7 @@ def generate(rep):
 
 def run(rep):
     rep.rule = ("TLC (Gen_Choices) enumerates choices-sheet shapes (list sizes, unused list, extra columns with sparsity patterns, interleaved rows, "
-                "duplicate names) x sequences of select variants (one/multiple/rank, or_other, filter, randomize +- literal/reference seed, from-file "
+                "duplicate names, plain or dotted list names, plain or translated labels) x sequences of select variants (one/multiple/rank, or_other, filter, randomize +- literal/reference seed, from-file "
                 "csv/xml/geojson with value/label, select_one_external, select from repeat, search()) x nesting depth x other external-data rows "
                 "(xml-/csv-external, pulldata sharing a file, last-saved) x external_choices shapes; each is rendered and converted; TLC (Trace_Choices) "
                 "checks the projected instances, itemsets, queries, inline items, companion nodes and the itemsets CSV against the source facts.")
@@ -88,7 +88,7 @@ def run(rep):
         rep.sample({"cfg": o["cfg"], "sels": o["sels"], "obs_selects": o["trace"][0]["obs"]["selects"], "instances": [i["id"] for i in o["trace"][0]["obs"]["instances"]]})
     ok = [o for i, o in enumerate(outs) if i in acc]
     base = next(o for o in ok if len(o["trace"][0]["src"]["lists"]) >= 2 and o["trace"][0]["src"]["lists"][0]["items"][0]["extras"] and len(o["trace"][0]["src"]["lists"][0]["items"]) >= 2
-                and o["trace"][0]["src"]["selects"][0]["kind"] == "itemset")
+                and o["trace"][0]["src"]["selects"][0]["kind"] == "itemset" and o["cfg"].get("style", "plain") == "plain")
     cans = []
     t = copy.deepcopy(base["trace"]); i0 = next(i for i in t[0]["obs"]["instances"] if i["id"] == "L"); i0["items"] = i0["items"][:-1]; cans.append(("last_choice_dropped", t))
     t = copy.deepcopy(base["trace"]); i0 = next(i for i in t[0]["obs"]["instances"] if i["id"] == "L"); i0["items"].reverse(); cans.append(("choices_reordered", t))
